@@ -135,6 +135,25 @@ def sqConv (n : Nat) : String :=
   let bit := sqBit n
   s!"idx={n} bit={toHex16 bit.toNat} back={sqOfBit bit} col={sqColumnChar n} row={sqRow n} show={String.ofList (showSquare n)} new={sqNew (sqColumnChar n) (sqRow n)}"
 
+/-- `impl PartialEq for GameState`: equality of the board-state hashes -/
+def stateEq (a b : GameState) : Bool := a.hash == b.hash
+
+/-- the persistent list of linked_list.rs as a Lean list (head = newest) -/
+def listOp (l : List Nat) (ws : List String) : List Nat × String :=
+  match ws with
+  | ["new"] => ([], "ok")
+  | ["append", x] => (match x.toNat? with
+      | some v => (v :: l, "ok")
+      | none => (l, "bad-op"))
+  | ["tail"] => (l.tail, "ok")
+  | ["head"] => (l, match l.head? with
+      | some v => toString v
+      | none => "none")
+  | ["len"] => (l, toString l.length)
+  | ["empty"] => (l, if l.isEmpty then "1" else "0")
+  | ["iter"] => (l, if l.isEmpty then "-" else ",".intercalate (l.map toString))
+  | _ => (l, "bad-op")
+
 def handle (cur : Option GameState) (line : String) : Option GameState × String :=
   match splitWords line with
   | "S" :: ws =>
@@ -199,15 +218,29 @@ def handle (cur : Option GameState) (line : String) : Option GameState × String
   | [] => (cur, "")
   | _ => (cur, "bad-op")
 
-partial def loop (hin : IO.FS.Stream) (hout : IO.FS.Stream) (cur : Option GameState) : IO Unit := do
+partial def loop (hin : IO.FS.Stream) (hout : IO.FS.Stream) (cur saved : Option GameState) (lst : List Nat) : IO Unit := do
   let line ← hin.getLine
   if line.isEmpty then return ()
-  let (cur', out) := handle cur line
-  hout.putStrLn out
-  loop hin hout cur'
+  match splitWords line with
+  | ["K"] =>
+    hout.putStrLn "ok"
+    loop hin hout cur cur lst
+  | ["E"] =>
+    hout.putStrLn (match cur, saved with
+      | some a, some b => if stateEq a b then "1" else "0"
+      | _, _ => "no-state")
+    loop hin hout cur saved lst
+  | "L" :: ws =>
+    let (lst', out) := listOp lst ws
+    hout.putStrLn out
+    loop hin hout cur saved lst'
+  | _ =>
+    let (cur', out) := handle cur line
+    hout.putStrLn out
+    loop hin hout cur' saved lst
 
 def main : IO Unit := do
   let hin ← IO.getStdin
   let hout ← IO.getStdout
-  loop hin hout none
+  loop hin hout none none []
   hout.flush
